@@ -2,12 +2,13 @@
 import histgen
 import worldgen
 import wprop
-from wprop import encode, classify_unencodable, sample  # noqa: F401
+from wprop import classify_unencodable, sample  # noqa: F401
+import k8s as K
 
 ID = "C07"
 TAGS = ["h_world"]
 CHECK_MODULE = "Check.C07Check"
-IMPORTS = ["Model.Objects", "Model.PodSpec", "Model.Backoff", "Model.ErsReconcile", "Model.EdsReconcile", "Check.World"]
+IMPORTS = ["Model.Objects", "Model.PodSpec", "Model.Backoff", "Model.ErsReconcile", "Model.EdsReconcile", "Check.World", "Check.C02Check"]
 RULE = ("(a) real ExtendedDaemonSet Reconciles on stores whose canary replica set is marked failed (reason restart storm, timeout, "
         "manually failed; paused or not; before/after the duration; with and without the canary-valid annotation; Canary-Failed "
         "transition 10 s .. 500 s ago around the 120 s retention; zero and non-zero counters), with every write of the rollback "
@@ -28,6 +29,7 @@ CODES = {
     14: "a replica set still reporting pods was deleted",
     15: "the failed canary replica set was deleted while spec.template still names its template (the rollback cannot complete any more)",
     16: "a replica set that is not the active one lost its Canary-Failed mark (the only durable record of the failure)",
+    17: "at rest after a rollback a node outside status.canary.nodes does not run one Ready pod of the active template (a pod of the failed canary was left behind)",
     20: "harness panic",
 }
 GO_TIMEOUT = 1500
@@ -52,7 +54,41 @@ def generate(rng, tier, stats):
         out.append(c)
     for _ in range(30 if tier == "quick" else 500):
         out.append(histgen.gen_history(rng, stats, canary=True, length=rng.choice([10, 16]), fail_bias=0.12, faults=True, fair_tail=2))
+    # the failed canary's pod has to go although another canary starts right away: B runs as a canary (its pod gets the
+    # canary label), is failed, rolled back - and before the active replica set syncs again the user pushes template C,
+    # whose canary lands on another node (B's node restarted) and stays (manual validation); then fair rounds
+    import p_c02
+    for _ in range(8 if tier == "quick" else 120):
+        n = rng.choice([3, 4])
+        c = histgen.gen_history(rng, None, n=n, canary=True, length=0)
+        e = [o for o in c["objects"] if o["kind"] == "ExtendedDaemonSet"][0]
+        can = e["spec"]["strategy"]["canary"]
+        can.pop("duration", None)
+        can.pop("noRestartsDuration", None)
+        can.update({"validationMode": "manual", "replicas": 1, "autoFail": {"enabled": True, "maxRestarts": 5},
+                    "autoPause": {"enabled": False, "maxRestarts": 2}})
+        ED = lambda cmd: histgen.edit("ExtendedDaemonSet", histgen.NS, histgen.EDS, cmd)
+        ops = c["ops"] + histgen.rollout_ops(rng, 3) + [ED("image:img:2")] + histgen.rollout_ops(rng, 5)
+        how = rng.choice(["command after a restart", "command after a restart", "command"])
+        if how != "command":
+            # the (labelled) canary pod restarted once: the next canary prefers another node
+            ops += [histgen.kubelet("restarted", 0, only="canary"), K.sleep(11), histgen.rec_all_ers(rng)]
+        ops += [K.cmd("canary_fail", histgen.NS, histgen.EDS)]
+        ops += [histgen.rec_eds(), histgen.rec_eds()]                       # the rollback (status, then spec)
+        ops += [ED("image:img:3"), histgen.rec_eds(), histgen.rec_eds()]    # ... and at once the next template
+        c["ops"] = ops
+        p_c02.add_tail(rng, c, n, resume=False)
+        wprop.bump(stats, "a new canary right after a rollback, before the active replica set synced", how)
+        out.append(c)
     return out
+
+
+def encode(c, r):
+    import p_c02
+    if "tail_rounds" in c:
+        return p_c02.encode(c, r)
+    lits = wprop.encode(c, r)
+    return None if lits is None else ["(W %s)" % l for l in lits]
 
 
 def nontrivial(c, r):
